@@ -14,7 +14,7 @@ levels 0..3, eager / lazy / explicit generation, MIR_output_item snapshots, MIR_
 later modules calling and inlining generated functions); facts are compared within the run, with a
 canonical history and with a pure-interpretation twin.
 """
-import json, os, re, shutil, subprocess, sys, hashlib, time
+import json, os, re, shutil, subprocess, sys, hashlib, time, threading
 from concurrent.futures import ThreadPoolExecutor
 from vf import Check, VERIF, REPO, SplitMix
 import c16_gen
@@ -26,17 +26,51 @@ os.makedirs(WORK, exist_ok=True)
 ENV = dict(os.environ, ASAN_OPTIONS="detect_leaks=1:abort_on_error=0:allocator_may_return_null=1",
            UBSAN_OPTIONS="print_stacktrace=1")
 
+_ctr_lock = threading.Lock()
+DRV = os.path.join(VERIF, "lean", ".lake", "build", "bin", "mirdrv_c16")
 KF1 = "C16:gen-after-interp"
 KF2 = "C16:lref-cells-shared-by-engines"
 
 
-def run(cmd, inp=None, timeout=120, env=None):
+import resource
+OUT_CAP = 256 * 1024 * 1024      # bytes a child may write to any file, incl. its captured stdout/stderr
+_run_ctr = [0]
+
+
+def _limits(cpu):
+    def f():
+        resource.setrlimit(resource.RLIMIT_FSIZE, (OUT_CAP, OUT_CAP))
+        resource.setrlimit(resource.RLIMIT_CPU, (cpu, cpu + 5))
+        resource.setrlimit(resource.RLIMIT_CORE, (0, 0))
+    return f
+
+
+def run(cmd, inp=None, timeout=120, env=None, cwd=None):
+    """run a child with a wall-clock timeout, a CPU limit and a cap on everything it writes: stdout and
+    stderr go to files in the work directory (subject to RLIMIT_FSIZE) and are read back afterwards"""
+    with _ctr_lock:
+        _run_ctr[0] += 1
+        k = _run_ctr[0]
+    po, pe = os.path.join(WORK, f"o_{k}.txt"), os.path.join(WORK, f"e_{k}.txt")
     try:
-        p = subprocess.run(cmd, input=inp, stdout=subprocess.PIPE, stderr=subprocess.PIPE, text=True,
-                           timeout=timeout, env=env or ENV, errors="replace")
-        return p.returncode, p.stdout, p.stderr
-    except subprocess.TimeoutExpired:
-        return -999, "", "timeout"
+        with open(po, "wb") as fo, open(pe, "wb") as fe:
+            try:
+                p = subprocess.run(cmd, input=inp.encode() if inp is not None else None, stdout=fo, stderr=fe,
+                                   timeout=timeout, env=env or ENV, cwd=cwd, preexec_fn=_limits(int(timeout) + 10))
+                rc = p.returncode
+            except subprocess.TimeoutExpired:
+                return -999, "", "timeout"
+        with open(po, "rb") as f:
+            out = f.read().decode(errors="replace")
+        with open(pe, "rb") as f:
+            err = f.read(4 * 1024 * 1024).decode(errors="replace")
+        return rc, out, err
+    finally:
+        for q in (po, pe):
+            try:
+                os.remove(q)
+            except OSError:
+                pass
 
 
 def wfile(name, text):
@@ -46,7 +80,6 @@ def wfile(name, text):
     return p
 
 
-import threading
 _text_paths, _text_lock = {}, threading.Lock()
 
 
@@ -224,7 +257,7 @@ def struct_case(mir_text, script_lines, link, label, how):
     # classification of every opcode (once per run is enough, it does not depend on the module)
     if not kinds_checked[0]:
         kinds_checked[0] = True
-        rcd, o, e = ck.drv("mirdrv_c16", inp="KINDS " + " ".join(kinds.keys()) + "\n")
+        rcd, o, e = run([DRV], inp="KINDS " + " ".join(kinds.keys()) + "\n", timeout=60)
         mk = dict(l.split(" ")[1:3] for l in o.split("\n") if l.startswith("K "))
         bad = {n: (kinds[n], mk.get(n)) for n in kinds if kinds[n] != mk.get(n)}
         dist["struct"]["opcodes_classified"] = len(kinds)
@@ -248,7 +281,7 @@ def struct_case(mir_text, script_lines, link, label, how):
         d0 = canon_dump(f["dumps"]["D0"])
         inp_all += model_input(d0, scr)
         per.append((f, scr))
-    rcd, o, e = ck.drv("mirdrv_c16", inp="\n".join(inp_all) + "\n", timeout=300)
+    rcd, o, e = run([DRV], inp="\n".join(inp_all) + "\n", timeout=300)
     if rcd != 0:
         probs.append({"kind": "driver", "rc": rcd, "stderr": e[-800:]})
         return probs
@@ -538,12 +571,13 @@ if QUICK:
 
 def c2m_one(path):
     out = os.path.join(WORK, "c_" + hashlib.sha1(path.encode()).hexdigest()[:12] + ".mir")
-    try:
-        p = subprocess.run([C2M, "-S", os.path.basename(path), "-o", out], cwd=os.path.dirname(path),
-                           stdout=subprocess.PIPE, stderr=subprocess.PIPE, timeout=30)
-    except subprocess.TimeoutExpired:
-        return None
-    if p.returncode != 0 or not os.path.exists(out):
+    rc, o, e = run([C2M, "-S", os.path.basename(path), "-o", out], timeout=30, env=dict(os.environ),
+                   cwd=os.path.dirname(path))
+    if rc != 0 or not os.path.exists(out):
+        try:
+            os.remove(out)
+        except OSError:
+            pass
         return None
     with open(out, errors="replace") as f:
         text = f.read()
